@@ -126,7 +126,7 @@ Lemma pinit_sync P w s0 : c_faults (pc_reader P) = [] -> wf_fs w -> fisdir (c_ro
   pinit P w = Some s0 -> PSync P s0 /\ p_world s0 = w /\ p_out s0 = [].
 Proof.
   intros Hf W Hroot Hi. unfold pinit in Hi.
-  destruct (construct_cover (pc_reader P) Hf w W Hroot) as (r0 & k0 & Hc & I & Cv & Hq & _). rewrite Hc in Hi.
+  destruct (construct_cover (pc_reader P) Hf w W Hroot) as (r0 & k0 & Hc & I & Cv & Hq & _ & Hp0). rewrite Hc in Hi.
   injection Hi as <-. cbn. split; [|split; reflexivity]. constructor; cbn.
   - constructor; try assumption. now apply fisdir_in.
   - unfold buffer_idle, ginit, DelayQueue.init, rinit. cbn. repeat split. intros id [].
